@@ -206,6 +206,14 @@ pub fn exec(line: &str) -> String {
         }
         ["p_c08", hd, he] => p_c08(&text!(hd), &text!(he)),
         ["p_c17", hd] => p_c17(&text!(hd)),
+        ["p_c07", h1, h2] => {
+            let (a, c) = (JsonShape::from_str(&text!(h1)), JsonShape::from_str(&text!(h2)));
+            match (a, c) {
+                (Ok(x), Ok(y)) if x == y => "ok".into(),
+                (Ok(x), Ok(y)) => format!("violated: {} vs {}", sexp(&x), sexp(&y)),
+                (x, y) => format!("violated: {} vs {}", show_res(&x), show_res(&y)),
+            }
+        }
         ["p_keeps", s0, a, c] => {
             let (s0, a, c) = (shape!(s0), shape!(a), shape!(c));
             let m = json_shape::verif::merger(a.clone(), c.clone()).unwrap();
